@@ -146,7 +146,7 @@ class LayoutExtractor:
         for m in self.mods:
             for c in m.classes.values():
                 if c.find_method('encode') and c.find_method('decode'):
-                    if repo.is_helper_class(c) and repo.subclasses(c):
+                    if repo.is_helper_class(c) and any(x.key != c.key for x in repo.subclasses(c)):
                         continue     # a new common base (mix-in): its methods are read in the classes that inherit them
                     self.classes[c.name] = c
         self.layouts: Dict[str, CodecLayout] = {}
